@@ -25,7 +25,7 @@ type cnode struct {
 	partition int
 	id        int
 	linkCut   int32 // 1 = the link to the leader is cut: deliveries fail
-	noQuery   int32 // 1 = does not register query handlers
+	noQuery   int32 // 1 = its query handlers fail, 2 = they are too slow
 	stopReg   chan struct{}
 }
 
@@ -120,10 +120,6 @@ func (c *cluster) openFollower(n *cnode) error {
 							return
 						default:
 						}
-						if atomic.LoadInt32(&n.noQuery) == 1 {
-							time.Sleep(10 * time.Millisecond)
-							continue
-						}
 						c.mx.Lock()
 						leader := c.leader
 						c.mx.Unlock()
@@ -135,8 +131,15 @@ func (c *cluster) openFollower(n *cnode) error {
 						used := make(chan bool, 1)
 						leader.RegisterQueryHandler(partition, func(ctx context.Context, sqlString string, isSubQuery bool, subQueryResults [][]interface{}, unflat bool, onFields core.OnFields, onRow core.OnRow, onFlatRow core.OnFlatRow) (interface{}, error) {
 							defer func() { used <- true }()
-							if atomic.LoadInt32(&n.noQuery) == 1 {
+							switch atomic.LoadInt32(&n.noQuery) {
+							case 1:
 								return nil, fmt.Errorf("follower unavailable")
+							case 2: // slower than the leader is willing to wait
+								select {
+								case <-time.After(6 * time.Second):
+								case <-ctx.Done():
+								}
+								return nil, fmt.Errorf("follower too slow")
 							}
 							return query(ctx, sqlString, isSubQuery, subQueryResults, unflat, onFields, onRow, onFlatRow)
 						})
